@@ -122,6 +122,7 @@ static void ref_parse(void)
     if (ref_inner(&q, end, &R.roff[k], &R.rlen[k])) return;
     R.nr = k + 1;
   }
+  CHECK(q >= end, "harness sizing: more recipients than MAXR");
   if (q != end) return;
   R.status = 2;
 }
